@@ -94,6 +94,14 @@ func (w *World) BootstrapConfig() raft.VConfig {
 			setNode(&c, raft.VCNode{ID: id, Addr: addrOf(id), Voter: true})
 		}
 	}
+	// some clusters start with non-voting members (legal at bootstrap; self must be a voter)
+	if w.chance(35) {
+		for _, id := range universe {
+			if findNode(&c, id) < 0 && w.chance(50) {
+				setNode(&c, raft.VCNode{ID: id, Addr: addrOf(id)})
+			}
+		}
+	}
 	return c
 }
 
@@ -170,6 +178,10 @@ func (w *World) mutateConfig(latest raft.VConfig) raft.VConfig {
 						c.Nodes[i].Action = w.pick(2, 3, 4)
 					}
 				}
+			}
+		case 10: // the leader demotes / removes itself (it keeps leading until that commits)
+			if i := findNode(&c, w.Self); i >= 0 && c.Nodes[i].Voter {
+				c.Nodes[i].Action = w.pick(2, 2, 3)
 			}
 		default:
 		}
@@ -578,11 +590,33 @@ func (w *World) genReplUpdates(d *raft.VNode) (Op, bool) {
 
 // GenOp draws the next operation given the node's current state.
 func (w *World) GenOp() Op {
+	if len(w.Trail) == 0 {
+		w.Calm = w.Rng.Intn(3) == 0
+		if w.Calm {
+			w.St.Hist["gen:calm-sequences"]++
+		}
+	}
 	d := w.Node.Digest()
 	boot := d.Configs.Latest.Index > 0
 	if d.Closed != "" {
 		// stateLoop returns at its next select once the node is closed
 		return Op{Kind: "shutdown"}
+	}
+	if w.Broken && w.chance(35) {
+		// search mode (model and implementation disagreed earlier in this sequence): probe the state with the
+		// operations whose results the monitors judge — snapshot + label, compaction, restart
+		switch {
+		case d.SnapResult != nil:
+			return Op{Kind: "snapTaken"}
+		case d.SnapPending != nil:
+			return Op{Kind: "snapRun"}
+		case w.chance(60):
+			return Op{Kind: "takeSnapshot", Task: w.NextTask(), Threshold: 0}
+		case w.chance(60):
+			return Op{Kind: "restart"}
+		default:
+			return Op{Kind: "shutdown"}
+		}
 	}
 	// pending snapshot machinery first, sometimes
 	if d.SnapResult != nil && w.chance(50) {
@@ -629,8 +663,24 @@ func (w *World) GenOp() Op {
 		}
 		return Op{}, false
 	}
-	if op, ok := common(); ok {
+	if op, ok := common(); ok && !(w.Calm && (op.Kind == "restart" || op.Kind == "shutdown" || op.Kind == "disconnected")) {
 		return op
+	}
+	if w.Calm && d.Role == "follower" && w.chance(35) {
+		return Op{Kind: "timeout"}
+	}
+	if w.Calm && d.Role == "candidate" && w.chance(50) {
+		src := w.otherVoter(&d)
+		if w.voted == nil {
+			w.voted = map[uint64]map[uint64]bool{}
+		}
+		if w.voted[d.Term] == nil {
+			w.voted[d.Term] = map[uint64]bool{}
+		}
+		if !w.voted[d.Term][src] && isVoterIn(&d.Configs.Latest, src) {
+			w.voted[d.Term][src] = true
+			return Op{Kind: "voteResult", Src: src, Term: d.Term, Result: 1, Elect: d.Term}
+		}
 	}
 	switch d.Role {
 	case "follower":
@@ -665,7 +715,18 @@ func (w *World) GenOp() Op {
 			} else if w.chance(8) {
 				term = sub(d.Term, 1)
 			}
-			op := Op{Kind: "voteResult", Src: w.otherVoter(&d), Err: w.chance(10), Term: term, Result: res}
+			op := Op{Kind: "voteResult", Src: w.otherVoter(&d), Err: w.chance(10), Term: term, Result: res, Elect: d.Term}
+			if d.Term > 1 && w.chance(15) {
+				// a late reply to the request of an earlier election round of this node (its term cannot be newer)
+				op.Elect = d.Term - 1 - uint64(w.Rng.Intn(2))
+				if op.Elect == 0 {
+					op.Elect = 1
+				}
+				if op.Term > op.Elect {
+					op.Term = op.Elect
+				}
+				return op
+			}
 			if w.voted == nil {
 				w.voted = map[uint64]map[uint64]bool{}
 			}
@@ -691,6 +752,17 @@ func (w *World) GenOp() Op {
 			return w.genBatch()
 		}
 	default: // leader
+		if d.Ldr.Transfer.Active {
+			w.St.Hist["gen:leader-with-transfer-active"]++
+		}
+		if d.Ldr.Transfer.Active && !d.Ldr.Transfer.RespPending && len(d.Ldr.Repls) > 0 && w.chance(60) {
+			// a transfer waits for a target: some follower (voter or not) catches up
+			r := d.Ldr.Repls[w.Rng.Intn(len(d.Ldr.Repls))]
+			u := raft.VReplUpdate{ID: r.ID, Kind: "matchIndex", Val: d.LastLogIndex}
+			if w.Node.CanReplUpdate(u) && u.Val >= r.MatchIndex {
+				return Op{Kind: "replUpdates", Updates: []raft.VReplUpdate{u}}
+			}
+		}
 		switch r := w.Rng.Intn(100); {
 		case r < 25:
 			return w.genBatch()
@@ -709,8 +781,11 @@ func (w *World) GenOp() Op {
 			return w.genBatch()
 		case r < 76:
 			tgt := uint64(0)
-			if w.chance(60) {
+			if w.chance(50) {
 				tgt = w.pick(1, 2, 3, 4, 5)
+				if len(d.Ldr.Repls) > 0 && w.chance(70) {
+					tgt = d.Ldr.Repls[w.Rng.Intn(len(d.Ldr.Repls))].ID
+				}
 			}
 			return Op{Kind: "transfer", Task: w.NextTask(), Target: tgt}
 		case r < 80:
@@ -730,6 +805,12 @@ func (w *World) GenOp() Op {
 			return w.genBatch()
 		case r < 83:
 			return Op{Kind: "waitStable", Task: w.NextTask()}
+		case w.Calm && r < 97:
+			// calm sequence: the leader keeps leading; followers report progress instead
+			if op, ok := w.genReplUpdates(&d); ok {
+				return op
+			}
+			return w.genBatch()
 		case r < 86:
 			return Op{Kind: "timeout"}
 		case r < 92:
